@@ -161,7 +161,13 @@ pub fn run(rep: &mut Report, tier: &str, seed: u64) {
             known_edges.push((ga, gb));
             known_edges.push((gb, ga));
             let lazy = r.chance(1, 2);
-            let cfg = RunCfg { lazy, globals: vec![("ga".into(), gnode_ref(ga)), ("gb".into(), gnode_ref(gb))], outer_globals: vec![], debug: None, cancel_at: None };
+            // a third of the histories run with debug attributes: an `edge` statement that finds its edge already there
+            // leaves the edge's location attribute alone (per history, so that earlier calls left such attributes behind)
+            let debug = if hi % 3 == 1 { Some(("dbg_l".to_string(), "dbg_v".to_string(), "dbg_m".to_string())) } else { None };
+            if debug.is_some() {
+                rep.count("call-with-debug-attributes");
+            }
+            let cfg = RunCfg { lazy, globals: vec![("ga".into(), gnode_ref(ga)), ("gb".into(), gnode_ref(gb))], outer_globals: vec![], debug, cancel_at: None };
             let before = graph_sexp(&graph, Some(&info));
             let mut table = OracleTable::new();
             table.arm_sets = crate::astx::scan_arm_sets(&file);
